@@ -156,6 +156,18 @@ func init() {
 				subType{M{"type": "object", "properties": M{"o": M{"type": "object", "properties": props}, "a": M{"type": "array", "items": M{"type": "object", "properties": nprops}}}}, "Root", `{}`,
 					[]string{`{}`, `{"o":{}}`, `{"o":null}`, `{"a":[{}]}`, `{"a":[null]}`, `{"a":[{},{}]}`, `{"a":null}`}})
 		}
+		// property names that are special to a struct tag or to one of the two decoders' key handling, as a required
+		// and as an optional key, with documents that contain the key (valid, with a fault elsewhere, wrong-typed)
+		for _, kn := range []string{"-", "--", "-x", "x-", "a-b", "_", "a.b", "a b", "a:b", "#", "?", "omitempty", "inline", "flow", "string", "ω"} {
+			for _, req := range []bool{true, false} {
+				sch := M{"type": "object", "properties": M{kn: M{"type": "string"}, "limit": M{"type": "integer"}}}
+				if req {
+					sch["required"] = []any{kn}
+				}
+				subs = append(subs, subType{sch, "Root", `{"limit":1}`,
+					[]string{string(core.MustJSON(M{kn: "name", "limit": 3})), string(core.MustJSON(M{kn: "name", "limit": "x"})), string(core.MustJSON(M{kn: []any{1}})), `{"limit":2}`, `{}`}})
+			}
+		}
 		for _, st := range subs {
 			for _, yamlToo := range []bool{false, true} {
 				pc := baseCase("c19-sub-types", st.schema, nil, st.ty)
